@@ -311,6 +311,9 @@ def run_check(prop: str, profile_name: str, tier: str, seed: int, jobs: int, spe
         faults.update(r.get("faults", {}))
         if r.get("strategy"):
             strategies[r["strategy"]] += 1
+    cover: set[str] = set()
+    for r in recs:
+        cover.update(r.get("cover", []))
     mandatory = spec.get("mandatory_probes", {}).get(tier, spec.get("mandatory_probes", {}).get("any", []))
     for p in mandatory:
         if probes.get(p, 0) == 0 and recs:
@@ -343,6 +346,7 @@ def run_check(prop: str, profile_name: str, tier: str, seed: int, jobs: int, spe
             "distinct_final_states": len({r.get("state_hash") for r in recs if r.get("state_hash")}),
             "strategies": dict(sorted(strategies.items())),
             "probes": dict(sorted(probes.items())),
+            **({"cover_items_hit": len(cover), "cover_items_total": spec.get("cover_total"), "cover_items_sample": sorted(cover)[:12]} if cover else {}),
             "components_real": spec.get("components_real", []),
             "components_stubbed": spec.get("components_stubbed", []),
             "known_findings_hit": {k["signature"]: {"batch_hits": k.get("_hits", 0), "witness_reproduces": k.get("_witness")} for k in known if k["property"] == prop and k.get("status", "known") == "known"},
